@@ -2,6 +2,7 @@ import Spydr.IR.Props.C07
 import Spydr.IR.Props.C07Elem
 import Spydr.IR.Props.C07Struct
 import Spydr.IR.Props.C07Detached
+import Spydr.IR.Props.C07Bundle
 open Spydr.IR
 #print axioms Spydr.IR.cloneNetlist_inv
 #print axioms Spydr.IR.cloneNetlist_frame
@@ -28,3 +29,11 @@ open Spydr.IR
 #print axioms Spydr.IR.cloneElem_same_structure
 #print axioms Spydr.IR.run_parEq
 #print axioms Spydr.IR.cloneElem_detached
+#print axioms Spydr.IR.clonePin_unwired
+#print axioms Spydr.IR.cloneWire_unwired
+#print axioms Spydr.IR.disc_fold
+#print axioms Spydr.IR.cloneInst_contract
+#print axioms Spydr.IR.cutInner_fold
+#print axioms Spydr.IR.clonePort_contract
+#print axioms Spydr.IR.cutWire_fold
+#print axioms Spydr.IR.cloneCable_contract
